@@ -64,6 +64,11 @@ class histosys_builder:
 
         for modifier_name, modifier in self.builder_data.items():
             for sample_name, sample in modifier.items():
+                # lengths are compared channel by channel, not only in total
+                per_channel_data = {
+                    key: [list(channel_data) for channel_data in sample["data"][key]]
+                    for key in ("nom_data", "lo_data", "hi_data")
+                }
                 sample["data"]["mask"] = default_backend.concatenate(
                     sample["data"]["mask"]
                 )
@@ -76,10 +81,13 @@ class histosys_builder:
                 sample["data"]["nom_data"] = default_backend.concatenate(
                     sample["data"]["nom_data"]
                 )
-                if (
-                    not len(sample["data"]["nom_data"])
-                    == len(sample["data"]["lo_data"])
-                    == len(sample["data"]["hi_data"])
+                if not all(
+                    len(nom_data) == len(lo_data) == len(hi_data)
+                    for nom_data, lo_data, hi_data in zip(
+                        per_channel_data["nom_data"],
+                        per_channel_data["lo_data"],
+                        per_channel_data["hi_data"],
+                    )
                 ):
                     _modifier_type, _modifier_name = modifier_name.split("/")
                     _sample_data_len = len(sample["data"]["nom_data"])
